@@ -67,6 +67,7 @@ class ShardState:
         self.shrink_deadline = None
         self.stop_path = stop_path
         self.harness_errors = []
+        self.recent = []          # the last few cases run in this process before the current one
         self.extra = {}
         self.t0 = time.time()
 
@@ -142,8 +143,12 @@ def run_given(state, strategy, body, n, seed_int, shrink=True):
         except Exception as e:       # error in harness code -> not a violation
             state.harness_errors.append(traceback.format_exc())
             raise HarnessError(str(e))
+        context = list(state.recent)
+        state.recent = (state.recent + [case])[-6:]
         if bad:
-            state.failures.append((case, bad))
+            # the cases run just before are kept: a failure that does not reproduce on its own may
+            # depend on state the code under test carries from one run to the next in a process
+            state.failures.append((case, bad, context))
             if state.shrink_deadline is None:
                 state.shrink_deadline = time.time() + state.shrink_box
                 if state.stop_path:
